@@ -35,7 +35,7 @@ impl Property for C11 {
         "C11"
     }
     fn rule(&self) -> String {
-        format!("histories of 1..8 didOpen/didChange steps over three documents f0..f2 (the first step opens f0) and - family late-files - a fourth one, f3.td, that does not exist until a step opens it, texts drawn from {NVARIANTS} variants per file (every include subset, renamed declaration, includes moved, syntax error, type error, include of a missing file) x 3 line layouts of the same bytes (as written, every / the first line break after ';' or a closing brace turned into a space: offsets stay, lines move); the harness writes each text to disk before sending it (buffer = disk) and proceeds in lock-step (idle = all tasks ended, then a barrier request). Oracle after EVERY step: for every URI ever published, the last publication equals the diagnostics of a fresh ide-level analysis of the current files with root = last touched document (converted by the repository's own to_proto::diagnostic), or is empty if the URI is not in that workspace; versions per URI never decrease. distinct = digest of history; non-trivial = >=2 steps and some URI whose expected diagnostics changed between non-empty and empty")
+        format!("histories of 1..8 didOpen/didChange steps over three documents f0..f2 (the first step opens f0), with steps in which another program writes a file the editor has not opened (family unopened-files: such a file, with diagnostics of its own, enters the workspace through an include and leaves it at a root switch) and - family late-files - a fourth one, f3.td, that does not exist until a step opens it, texts drawn from {NVARIANTS} variants per file (every include subset, renamed declaration, includes moved, syntax error, type error, include of a missing file) x 3 line layouts of the same bytes (as written, every / the first line break after ';' or a closing brace turned into a space: offsets stay, lines move); the harness writes each text to disk before sending it (buffer = disk) and proceeds in lock-step (idle = all tasks ended, then a barrier request). Oracle after EVERY step: for every URI ever published, the last publication equals the diagnostics of a fresh ide-level analysis of the current files with root = last touched document (converted by the repository's own to_proto::diagnostic), or is empty if the URI is not in that workspace; versions per URI never decrease. distinct = digest of history; non-trivial = >=2 steps and some URI whose expected diagnostics changed between non-empty and empty")
     }
     fn families(&self, ctx: &Ctx) -> Vec<Family> {
         vec![
@@ -77,6 +77,24 @@ impl Property for C11 {
                     }
                 }
             }),
+            // a file the editor never opens is written by another program (every variant: with and without
+            // diagnostics of its own), comes into the workspace through f0's includes and leaves it again
+            // when a document that includes nothing becomes the root; then f0 once more
+            Family::new("unopened-files", 2, |f, _r, emit| {
+                let f = f + 1;
+                let other = 3 - f;
+                for v in 0..NVARIANTS {
+                    for ops in [
+                        json!([[f, v, 0, 1], [0, 7], [other, 0], [0, 7]]),
+                        json!([[0, 7], [f, v, 0, 1], [0, 7, 1], [other, 0], [f, 0, 0, 1], [0, 7]]),
+                        json!([[f, v, 0, 1], [other, v, 0, 1], [0, 7], [0, 0], [0, 7, 2]]),
+                    ] {
+                        if !emit(json!({"kind": "diag-history", "ops": ops})) {
+                            return;
+                        }
+                    }
+                }
+            }),
             Family::new("bursts", ctx.tier.pick(30, 6000), |_c, rng, emit| {
                 for _ in 0..10 {
                     let n = 2 + rng.below(3);
@@ -94,7 +112,7 @@ impl Property for C11 {
                     let n = 1 + rng.below(8);
                     let mut ops = vec![json!([0, rng.below(NVARIANTS)])];
                     for _ in 1..n {
-                        ops.push(json!([rng.below(NFILES), rng.below(NVARIANTS), rng.weighted(&[3, 1, 1])]));
+                        ops.push(json!([rng.below(NFILES), rng.below(NVARIANTS), rng.weighted(&[3, 1, 1]), rng.weighted(&[4, 1])]));
                     }
                     if !emit(json!({"kind": "diag-history", "ops": ops})) {
                         return;
@@ -118,6 +136,7 @@ impl Property for C11 {
         let mut flipped = false;
         let mut prev_expected: BTreeMap<String, bool> = BTreeMap::new();
         let mut verdict: Option<Verdict> = None;
+        let mut touched: std::collections::BTreeSet<String> = std::collections::BTreeSet::new();
         for (step, op) in ops.iter().enumerate() {
             let (Some(f), Some(v)) = (op[0].as_u64(), op[1].as_u64()) else {
                 verdict = Some(Verdict::Skip("malformed-case"));
@@ -128,6 +147,16 @@ impl Property for C11 {
             // third component: line layout of the same bytes (0 as written, 1 every line break after
             // `;`/`}` turned into a space, 2 only the first one): offsets stay, lines and columns move
             let text = layout(&variant_text(f as usize % (NFILES + 1), v as usize % NVARIANTS), op[2].as_u64().unwrap_or(0));
+            // fourth component 1: another program writes the file, the editor is not involved. (A
+            // document the editor has touched is the editor's: such a step is left out.)
+            if op[3].as_u64() == Some(1) {
+                if !touched.contains(&name) {
+                    s.tw.write(&name, &text);
+                    texts.insert(name.clone(), text.clone());
+                }
+                continue;
+            }
+            touched.insert(name.clone());
             s.tw.write(&name, &text);
             texts.insert(name.clone(), text.clone());
             let burst = case["burst"].as_bool() == Some(true);
